@@ -32,9 +32,12 @@ def canon(v, depth=0):
         lp = v.location_on_parent
         return ["seq", str(v), v.alphabet.name, E.loc(lp) if lp is not None else None]
     if tn == "Parent" or tn == "_lru_cache_wrapper":
+        st = getattr(v, "strand", None)
         return ["parent", getattr(v, "id", None), str(getattr(v, "sequence_type", None)),
                 str(v.sequence) if getattr(v, "sequence", None) is not None else None,
-                E.loc(v.location) if getattr(v, "location", None) is not None else None]
+                E.loc(v.location) if getattr(v, "location", None) is not None else None,
+                st.name if st is not None else None,
+                canon(getattr(v, "parent", None), depth + 1) if getattr(v, "parent", None) is not None else None]
     if isinstance(v, dict):
         return {str(k): canon(w, depth + 1) for k, w in sorted(v.items(), key=lambda kv: str(kv[0]))}
     if isinstance(v, (set, frozenset)):
@@ -109,6 +112,25 @@ def factory(kind, spec):
         obj = E.make_loc(spec["blocks"], lst, plain)
         ops["other"] = E.make_loc(spec["other"], lst, plain)
         ops["far"] = E.make_loc([[0, 1]], lst, plain)  # the generator keeps position 0..3 free of blocks
+        return obj, ops
+    if kind == "parent":
+        from inscripta.biocantor.location.strand import Strand
+
+        sq = Sequence(R, Alphabet.NT_EXTENDED_GAPPED, id="chr", type=SequenceType.CHROMOSOME)
+        st = Strand.from_symbol(spec["strand"])
+        b = spec["blocks"][0]
+        up = Parent(id="asm", sequence_type="assembly")
+        shape = spec.get("pshape", 0)
+        kw = [dict(sequence=sq, strand=st),                                   # sequence + explicit strand, no location
+              dict(id="chr", sequence_type="chromosome", strand=st),
+              dict(sequence=sq, location=E.make_loc([b], spec["strand"])),
+              dict(id="chr", location=E.make_loc([b], spec["strand"]), parent=up),
+              dict(sequence=sq), dict(id="chr", sequence_type="chromosome", parent=up),
+              dict(sequence=sq, strand=st, parent=up)][shape % 7]
+        # (an "uncached" twin is built around the constructor cache: it shares nothing with the object under test)
+        obj = Parent.__wrapped__(**kw) if spec.get("uncached") else Parent(**kw)
+        ops["other_loc"] = E.make_loc(spec["other"], spec["strand"])
+        ops["kw"] = kw
         return obj, ops
     if kind == "sequence":
         loc = E.make_loc(spec["blocks"][:1], spec["strand"])
@@ -191,6 +213,22 @@ def actions(kind):
             "has_overlap_other": lambda o, p: o.has_overlap(p["other"]),
             "gaps_op": lambda o, p: o.gaps_location(),
             "scan_windows_op": lambda o, p: list(o.scan_windows(2, 1, 0)),
+        }
+    elif kind == "parent":
+        A = {
+            "id": lambda o, p: o.id, "sequence_type": lambda o, p: o.sequence_type, "strand": lambda o, p: o.strand,
+            "location": lambda o, p: o.location, "sequence": lambda o, p: o.sequence, "parent_of_parent": lambda o, p: o.parent,
+            "hash": lambda o, p: hash(o), "repr": lambda o, p: repr(o),
+            "strip_location_info": lambda o, p: o.strip_location_info(),
+            "reset_location_none": lambda o, p: o.reset_location(None),
+            "first_ancestor": lambda o, p: o.first_ancestor_of_type("assembly"),
+            "has_ancestor": lambda o, p: o.has_ancestor_of_type("assembly"),
+            "has_ancestor_sequence": lambda o, p: o.has_ancestor_sequence(o.sequence) if o.sequence is not None else None,
+            "equals_except_location_twin": lambda o, p: o.equals_except_location(Parent(**p["kw"])),
+            "reset_location_other": lambda o, p: o.reset_location(p["other_loc"]),
+            "strip_then_reset": lambda o, p: o.strip_location_info().reset_location(p["other_loc"]),
+            "make_location_on_it": lambda o, p: p["other_loc"].reset_parent(o),
+            "build_equal_parent": lambda o, p: Parent(**p["kw"]),
         }
     elif kind == "sequence":
         A = {
@@ -353,10 +391,13 @@ def _replay(args):
     rnd = random.Random(seed)
     acts = actions(kind)
     ev = []
-    modes = ["loc-any", "loc-single", "loc-unstranded", "loc-deep", "loc-overlap"] if kind == "location" else [None] if kind == "sequence" else \
+    modes = ["loc-any", "loc-single", "loc-unstranded", "loc-deep", "loc-overlap"] if kind == "location" else \
+        [None] if kind == "sequence" else ["p0", "p1", "p2", "p3", "p4", "p5", "p6"] if kind == "parent" else \
         ["none", "enclosing", "cutting", "cutting", "cutting"]
     for h, mode in [(h, m) for h in hists for m in modes]:
-        sp = _spec(rnd, mode)
+        sp = _spec(rnd, None if kind == "parent" else mode)
+        if kind == "parent":
+            sp["pshape"] = int(mode[1:])
         if kind == "cds" and not sp["cds"]:
             sp = _spec(rnd, mode)
             if not sp["cds"]:
@@ -383,7 +424,13 @@ def _replay(args):
         if unknown:
             ev.append(["hist", kind, h, "?", "?", "??", "??", "", "", "!unknown:" + unknown[0]])
             continue
-        before = snapshot([X] + [v for k2, v in sorted(ops.items()) if k2 in ("other",)])
+        if kind == "parent":
+            # reading a Parent fills its lazily computed slots: the content before the history is read from an
+            # independent, uncached twin so that X itself is untouched when the history starts
+            T0, _ = factory(kind, dict(sp, uncached=True))
+            before = snapshot([T0])
+        else:
+            before = snapshot([X] + [v for k2, v in sorted(ops.items()) if k2 in ("other",)])
         ans = None
         for a in h:
             ans = answer(lambda a=a: acts[a](X, ops))
@@ -772,7 +819,7 @@ def _parse_hists(out):
 def run(chk):
     quick = chk.quick
     rnd = random.Random(chk.seed * 179424673 + 10)
-    kinds = ["location", "sequence", "cds", "transcript", "gene", "collection"]
+    kinds = ["location", "parent", "sequence", "cds", "transcript", "gene", "collection"]
     jobs = []
     total_emitted = 0
     for k in kinds:
